@@ -26,7 +26,7 @@ REPO = os.environ.get("VERIF_REPO", "/repo")
 INC = os.path.join(REPO, "Include")
 COQ = os.path.join(ROOT, "coq")
 BUILD = os.path.join(ROOT, "build")
-EVID = os.path.join(ROOT, "evidence")
+EVID = os.environ.get("VERIF_EVIDENCE_DIR") or os.path.join(ROOT, "evidence")    # override: side runs (other seeds, scratch worktrees) that must not replace the committed evidence
 REPLAYS = os.path.join(ROOT, "replays")
 GUARD = "QENTEM_VERIF"
 NPROC = os.cpu_count() or 4
@@ -339,6 +339,7 @@ def run_sharded(exe, args, lines, shards=None, timeout=1800, env=None, case_time
 
     res = []
     crashes = []
+    retried = 0
     with cf.ThreadPoolExecutor(max_workers=len(chunks)) as ex:
         for ch, (rc, out, err) in zip(chunks, ex.map(work, chunks)):
             if len(out) < len(ch):
@@ -348,6 +349,11 @@ def run_sharded(exe, args, lines, shards=None, timeout=1800, env=None, case_time
                 rest = ch[done:]
                 for k, ln in enumerate(rest):
                     rc1, out1, err1 = run_lines(exe, args, [ln], timeout=case_timeout, env=env)
+                    if rc1 == 124 and "[timeout]" in err1 and retried < 5:
+                        # a loaded machine must not turn into a verdict: one retry with four times the limit
+                        # (for the first few cases only; a change that makes hundreds of cases loop is decided by those)
+                        retried += 1
+                        rc1, out1, err1 = run_lines(exe, args, [ln], timeout=case_timeout * 4, env=env)
                     if len(out1) >= 1 and rc1 == 0:
                         res.append(out1[0])
                     else:
